@@ -163,6 +163,9 @@ class ConcurrentExecutor(ABC, Generic[CallableType, ResultType]):
         # Event-driven state tracking for when the executor is done
         self._completion_event = threading.Event()
         self._suspend_exception: SuspendExecution | None = None
+        # BaseException (e.g. BackgroundThreadError after a failed checkpoint) raised by a branch
+        # or by the timer thread: re-raised on the thread that waits in execute()
+        self._fatal_exception: BaseException | None = None
 
         # ExecutionCounters will keep track of completion criteria and on-going counters
         min_successful = self.completion_config.min_successful or len(self.executables)
@@ -209,11 +212,18 @@ class ConcurrentExecutor(ABC, Generic[CallableType, ResultType]):
         ]
         self._completion_event.clear()
         self._suspend_exception = None
+        self._fatal_exception = None
 
         def resubmitter(executable_with_state: ExecutableWithState) -> None:
             """Resubmit a timed suspended task."""
-            execution_state.create_checkpoint()
-            submit_task(executable_with_state)
+            try:
+                execution_state.create_checkpoint()
+                submit_task(executable_with_state)
+            except BaseException as e:  # noqa: BLE001
+                # e.g. BackgroundThreadError: checkpointing failed. Nobody else would ever
+                # finish this branch, so wake the waiting thread and let it raise.
+                self._fatal_exception = e
+                self._completion_event.set()
 
         thread_executor = ThreadPoolExecutor(max_workers=max_workers)
         try:
@@ -245,6 +255,10 @@ class ConcurrentExecutor(ABC, Generic[CallableType, ResultType]):
                 # Cancel futures that haven't started yet
                 for future in futures:
                     future.cancel()
+
+                # A branch or the timer thread died with a system-level exception
+                if self._fatal_exception is not None:
+                    raise self._fatal_exception
 
                 # Suspend execution if everything done and at least one of the tasks raised a suspend exception.
                 if self._suspend_exception:
@@ -331,6 +345,12 @@ class ConcurrentExecutor(ABC, Generic[CallableType, ResultType]):
         except Exception as e:  # noqa: BLE001
             exe_state.fail(e)
             self.counters.fail_task()
+        except BaseException as e:  # noqa: BLE001
+            # System-level exception (e.g. BackgroundThreadError after a failed checkpoint): it
+            # must not be swallowed here, and the waiting thread must not block forever.
+            self._fatal_exception = e
+            self._completion_event.set()
+            return
 
         # Check if execution should complete or suspend
         if self.counters.should_complete():
